@@ -14,12 +14,37 @@ from ..values import Bound, FuncV, Obj, T, TV, fmt
 
 PA = "unit_scaling/parameter.py"
 TU = "unit_scaling/transforms/utils.py"
-HOOKS = {"__deepcopy__": "_parameter_deepcopy", "__reduce_ex__": "_parameter_reduce_ex"}
+HOOKS: Dict[str, Any] = {"__deepcopy__": None, "__reduce_ex__": None}  # hook name -> library function (discovered)
 TAGS = ("mup_type", "mup_scaling_depth")
 
 
-def hook_ok(v: Any, obj: Obj, fname: str) -> bool:
-    return isinstance(v, Bound) and isinstance(v.func, FuncV) and v.func.qualname == fname and v.self_val is obj
+def hook_ok(v: Any, obj: Obj, fn: Any) -> bool:
+    return isinstance(v, Bound) and isinstance(v.func, FuncV) and isinstance(fn, FuncV) and v.func.node is fn.node and v.self_val is obj
+
+
+def discover(it: Interp) -> Dict[str, Any]:
+    """The private helpers are found through the public constructor, not by name: the functions
+    Parameter() installs as instance __deepcopy__ / __reduce_ex__, and the rebuild function the
+    reduce hook names."""
+    f = it.get_global(PA, "Parameter")
+    p = it.call_function(f, [P("data", None), "weight"], {})
+    out: Dict[str, Any] = {}
+    if isinstance(p, Obj):
+        for h in HOOKS:
+            v = p.attrs.get(h)
+            out[h] = v.func if isinstance(v, Bound) and isinstance(v.func, FuncV) else None
+    red = out.get("__reduce_ex__")
+    out["rebuild"] = None
+    if isinstance(red, FuncV):
+        probe = Obj("torch.nn.Parameter", term=T("param", ("probe",)))
+        probe.attrs.update({"mup_type": "weight", "mup_scaling_depth": None})
+        try:
+            r = it.call_function(red, [probe, O("protocol")], {})
+            if isinstance(r, tuple) and r and isinstance(r[0], FuncV):
+                out["rebuild"] = r[0]
+        except Unsupported:
+            pass
+    return out
 
 
 def check(report: Report, repo: Repo) -> None:
@@ -41,16 +66,24 @@ def check(report: Report, repo: Repo) -> None:
     ]
     it = Interp(repo)
     mi = it.modinfo(PA)
-    for need in ("Parameter", "_parameter_deepcopy", "_parameter_reduce_ex", "_rebuild_parameter_with_state", "has_parameter_data"):
+    for need in ("Parameter", "has_parameter_data"):
         if not mi.has(need):
             raise AnalysisError(f"anchor vanished: {PA}::{need}")
+    found = discover(it)
+    HOOKS.update({h: found.get(h) for h in HOOKS})
+    F_DEEPCOPY, F_REDUCE, F_REBUILD = found.get("__deepcopy__"), found.get("__reduce_ex__"), found.get("rebuild")
+    for label, fn_ in (("instance __deepcopy__ hook", F_DEEPCOPY), ("instance __reduce_ex__ hook", F_REDUCE), ("rebuild function named by the reduce hook", F_REBUILD)):
+        report.add("R1-producer", f"{PA}::Parameter::{label}", isinstance(fn_, FuncV), f"Parameter() must install a library function as {label}" if "hook" in label else "the reduce hook must name a library rebuild function", fmt(fn_), "a function of parameter.py", nontrivial=False)
+    if not all(isinstance(x, FuncV) for x in (F_DEEPCOPY, F_REDUCE, F_REBUILD)):
+        return
+    N_DEEPCOPY, N_REDUCE, N_REBUILD = (f"{PA}::{x.qualname}" for x in (F_DEEPCOPY, F_REDUCE, F_REBUILD))
 
     def check_obj(cons: str, obj: Any, want_tags: Dict[str, Any], tags_required: bool) -> None:
         if not isinstance(obj, Obj) or obj.cls_name != "torch.nn.Parameter":
             report.add("R1-producer", cons, False, "does not return a parameter object", fmt(obj), "nn.Parameter")
             return
         for h, fn_ in HOOKS.items():
-            report.add("R1-producer", f"{cons}::hooks", hook_ok(obj.attrs.get(h), obj, fn_), f"returned parameter must carry instance {h} = {fn_} bound to itself (otherwise the next copy/pickle drops the tags)", fmt(obj.attrs.get(h, "<not set>")), f"{fn_}.__get__(p)")
+            report.add("R1-producer", f"{cons}::hooks", hook_ok(obj.attrs.get(h), obj, fn_), f"returned parameter must carry instance {h} = {fn_.qualname} bound to itself (otherwise the next copy/pickle drops the tags)", fmt(obj.attrs.get(h, "<not set>")), f"{fn_.qualname}.__get__(p)")
         if tags_required:
             for tname, want in want_tags.items():
                 got = obj.attrs.get(tname, "<not set>")
@@ -68,38 +101,38 @@ def check(report: Report, repo: Repo) -> None:
     except Unsupported as ex:
         report.add("R1-producer", f"{PA}::Parameter", None, f"outside fragment: {ex}")
     # ---- producer 2: _parameter_deepcopy
-    f = it.get_global(PA, "_parameter_deepcopy")
+    f = F_DEEPCOPY
     src = Obj("torch.nn.Parameter", attrs={"mup_type": O("src_type"), "mup_scaling_depth": O("src_depth")}, term=T("param", ("self",)))
     try:
         r = it.call_function(f, [src, O("memo")], {})
-        check_obj(f"{PA}::_parameter_deepcopy", r, {k: src.attrs[k] for k in TAGS}, True)
-        report.add("R1-producer", f"{PA}::_parameter_deepcopy::fresh", r is not src, "the copy is a new object", "same" if r is src else "new", "new", nontrivial=False)
+        check_obj(N_DEEPCOPY, r, {k: src.attrs[k] for k in TAGS}, True)
+        report.add("R1-producer", f"{N_DEEPCOPY}::fresh", r is not src, "the copy is a new object", "same" if r is src else "new", "new", nontrivial=False)
     except Unsupported as ex:
-        report.add("R1-producer", f"{PA}::_parameter_deepcopy", None, f"outside fragment: {ex}")
+        report.add("R1-producer", N_DEEPCOPY, None, f"outside fragment: {ex}")
     # ---- producer 3: _rebuild_parameter_with_state
-    f = it.get_global(PA, "_rebuild_parameter_with_state")
+    f = F_REBUILD
     try:
         it.events = []
         r = it.call_function(f, [P("data", None), O("requires_grad"), {}, {"mup_type": "weight", "mup_scaling_depth": None}], {})
-        check_obj(f"{PA}::_rebuild_parameter_with_state", r, {}, False)
+        check_obj(N_REBUILD, r, {}, False)
         calls = [e for e in it.events if e.kind == "call" and "torch._utils._rebuild_parameter_with_state" in str(e["callee"])]
         okc = len(calls) == 1 and len(calls[0]["args"]) == 4
-        report.add("R2-pickle-protocol", f"{PA}::_rebuild_parameter_with_state::delegate", okc, "all arguments (incl. the state dict that carries the tags) are handed to torch's rebuild function", len(calls[0]["args"]) if calls else 0, 4)
+        report.add("R2-pickle-protocol", f"{N_REBUILD}::delegate", okc, "all arguments (incl. the state dict that carries the tags) are handed to torch's rebuild function", len(calls[0]["args"]) if calls else 0, 4)
     except Unsupported as ex:
-        report.add("R1-producer", f"{PA}::_rebuild_parameter_with_state", None, f"outside fragment: {ex}")
+        report.add("R1-producer", N_REBUILD, None, f"outside fragment: {ex}")
     # ---- R2: reduce_ex
-    f = it.get_global(PA, "_parameter_reduce_ex")
+    f = F_REDUCE
     selfp = Obj("torch.nn.Parameter", term=T("param", ("self",)))
     selfp.attrs.update({"mup_type": "norm", "mup_scaling_depth": O("depth"), "user_attr": O("user")})
     for h, fn_ in HOOKS.items():
-        selfp.attrs[h] = Bound(it.get_global(PA, fn_), selfp)
-    cons = f"{PA}::_parameter_reduce_ex"
+        selfp.attrs[h] = Bound(fn_, selfp)
+    cons = N_REDUCE
     try:
         before_keys = dict(selfp.attrs)
         r = it.call_function(f, [selfp, O("protocol")], {})
         unchanged = set(selfp.attrs) == set(before_keys) and all(selfp.attrs[k] is before_keys[k] for k in before_keys)
         report.add("R2-pickle-protocol", f"{cons}::source-untouched", unchanged, "pickling must not modify the parameter being saved (its instance __dict__ is live: removing the hooks from it untags every later copy of the *source*)", sorted(set(before_keys) - set(selfp.attrs)), [])
-        ok = isinstance(r, tuple) and len(r) == 2 and isinstance(r[0], FuncV) and r[0].qualname == "_rebuild_parameter_with_state" and isinstance(r[1], tuple) and len(r[1]) == 4
+        ok = isinstance(r, tuple) and len(r) == 2 and isinstance(r[0], FuncV) and r[0].node is F_REBUILD.node and r[0].module.rel == PA and isinstance(r[1], tuple) and len(r[1]) == 4
         report.add("R2-pickle-protocol", f"{cons}::rebuild", ok, "reduce must return (library rebuild function, (data, requires_grad, hooks, state))", fmt(r), "(_rebuild_parameter_with_state, (data, requires_grad, OrderedDict(), state))")
         if ok:
             data, rg, hooks, state = r[1]
